@@ -135,6 +135,18 @@ def callerSees (form : Form) (v : Nat) (bodyHow propagated : How) : Ret :=
 
 /-! ## the program -/
 
+/-- How a body ends: by the exception of a child that got through to it, otherwise its own way. -/
+def bodyEnds (fromKids : Option Exc) (fin : How) : How :=
+  match fromKids with
+  | some e => some e
+  | none => fin
+
+/-- What gets past the `try` the generated code puts around a call: an exception the guard's
+    `except` clause does not match. -/
+def Catch.passes (g : Catch) : Ret → Option Exc
+  | .exc e => if g.catches e then none else some e
+  | _ => none
+
 mutual
 /-- One call of a testcase in any of the three forms: `_testcase_block` around the body.
     The body reads `NESTING`, calls the children, then ends as `fin` says unless a child's
@@ -144,9 +156,7 @@ def runNode (nest : Int) : Node → Run Ret
     let n : Name := ⟨form, id⟩
     let b := testcaseBegin n nest
     let k := runKids b.nest kids
-    let how : How := match k.val with
-      | some e => some e
-      | none => fin
+    let how : How := bodyEnds k.val fin
     let x := blockExit n k.nest how
     ⟨b.items ++ [.enter n b.nest] ++ k.items ++ [.body n how] ++ x.items, x.nest,
      callerSees form id how x.val⟩
@@ -157,10 +167,7 @@ def runKids (nest : Int) : List Node → Run How
   | [] => ⟨[], nest, none⟩
   | k :: ks =>
     let r := runNode nest k
-    let caught : Option Exc := match r.val with
-      | .exc e => if k.guard.catches e then none else some e
-      | _ => none
-    match caught with
+    match k.guard.passes r.val with
     | some e => ⟨r.items ++ [.ret k.name r.val], r.nest, some e⟩
     | none =>
       let r2 := runKids r.nest ks
